@@ -2681,6 +2681,46 @@ func ruleCallerLaneChoice(c *Ctx, rule string) {
 	if bs == nil || bps == nil {
 		return
 	}
+	// underAsyncTest: the block is reached only through a test of a pool head's IsAsync flag (and through no other predicate)
+	underAsyncTest := func(b *ssa.BasicBlock) bool {
+		under := false
+		for d := b; d != nil; d = d.Idom() {
+			if len(d.Instrs) == 0 {
+				continue
+			}
+			if iff, ok := d.Instrs[len(d.Instrs)-1].(*ssa.If); ok {
+				s := newSym(L, map[string]bool{})
+				s.maxD = 0
+				t := strings.Join(s.eval(iff.Cond), "|")
+				if strings.Contains(t, "field:internal/kessoku.ProviderSpec.IsAsync(field:internal/kessoku.node.providerSpec(index(") && !strings.Contains(t, genPkg+".") {
+					under = true
+				}
+				if strings.Contains(t, genPkg+".") || strings.Contains(t, "slices.") {
+					return false
+				}
+			}
+		}
+		return under
+	}
+	combine := func(kinds map[string]bool) string {
+		delete(kinds, "ok")
+		if kinds["first"] && kinds["sync-elem"] && len(kinds) == 2 {
+			return "first" // default first ready pool, overridden by the first ready pool with a synchronous head
+		}
+		if kinds["sync-elem"] {
+			delete(kinds, "sync-elem")
+			kinds["elem"] = true
+		}
+		if len(kinds) == 1 {
+			for k := range kinds {
+				return k
+			}
+		}
+		if len(kinds) == 0 {
+			return "ok"
+		}
+		return "mixed:" + strings.Join(sortedKeys(kinds), "+")
+	}
 	var classify func(v ssa.Value, seen map[ssa.Value]bool) string
 	classify = func(v ssa.Value, seen map[ssa.Value]bool) string {
 		if seen[v] {
@@ -2709,55 +2749,31 @@ func ruleCallerLaneChoice(c *Ctx, rule string) {
 					return "loopvar"
 				}
 			}
+		case *ssa.Call:
+			// the index found by a private finder helper: what the helper returns, each return read where it stands
+			if g := x.Common().StaticCallee(); g != nil && g.Pkg == bs.Pkg && len(g.Blocks) > 0 && g.Signature.Results().Len() == 1 {
+				kinds := map[string]bool{}
+				for _, r := range returnsOf(g) {
+					k := classify(r.Results[0], seen)
+					if k == "elem" && underAsyncTest(r.Block()) {
+						k = "sync-elem"
+					}
+					kinds[k] = true
+				}
+				return combine(kinds)
+			}
 		case *ssa.Phi:
 			kinds := map[string]bool{}
 			for i, e := range x.Edges {
 				k := classify(e, seen)
 				// "the first ready pool, unless a ready pool with a synchronous head is found": the scanned element may
 				// replace the default only under the IsAsync test of that pool's head
-				if k == "elem" && i < len(x.Block().Preds) {
-					underAsyncTest := false
-					pred := x.Block().Preds[i]
-					for d := pred; d != nil; d = d.Idom() {
-						if len(d.Instrs) == 0 {
-							continue
-						}
-						if iff, ok := d.Instrs[len(d.Instrs)-1].(*ssa.If); ok {
-							s := newSym(L, map[string]bool{})
-							s.maxD = 0
-							t := strings.Join(s.eval(iff.Cond), "|")
-							if strings.Contains(t, "field:internal/kessoku.ProviderSpec.IsAsync(field:internal/kessoku.node.providerSpec(index(") && !strings.Contains(t, genPkg+".") {
-								underAsyncTest = true
-							}
-							if strings.Contains(t, genPkg+".") || strings.Contains(t, "slices.") {
-								underAsyncTest = false
-								break
-							}
-						}
-					}
-					if underAsyncTest {
-						k = "sync-elem"
-					}
+				if k == "elem" && i < len(x.Block().Preds) && underAsyncTest(x.Block().Preds[i]) {
+					k = "sync-elem"
 				}
 				kinds[k] = true
 			}
-			delete(kinds, "ok")
-			if kinds["first"] && kinds["sync-elem"] && len(kinds) == 2 {
-				return "first" // default first ready pool, overridden by the first ready pool with a synchronous head
-			}
-			if kinds["sync-elem"] {
-				delete(kinds, "sync-elem")
-				kinds["elem"] = true
-			}
-			if len(kinds) == 1 {
-				for k := range kinds {
-					return k
-				}
-			}
-			if len(kinds) == 0 {
-				return "ok"
-			}
-			return "mixed:" + strings.Join(sortedKeys(kinds), "+")
+			return combine(kinds)
 		}
 		return "computed: " + describe(v)
 	}
@@ -5398,9 +5414,7 @@ func isRangeIndexIncrement(bo *ssa.BinOp) bool {
 func ruleMatchingVisitedFreshPerRoot(c *Ctx, rule string) {
 	L := c.L
 	fn := genFn(c, rule, "(*Graph).findMaximumAntichainSize")
-	aug := resolveRole(c, genPkg, "(*Graph).findAugmentingPath")
-	if fn == nil || aug == nil {
-		c.undecided(rule, "findAugmentingPath", "function not found")
+	if fn == nil {
 		return
 	}
 	innermost := func(b *ssa.BasicBlock) *ssa.BasicBlock {
@@ -5416,6 +5430,66 @@ func ruleMatchingVisitedFreshPerRoot(c *Ctx, rule string) {
 			}
 		}
 		return nil
+	}
+	// the search: the self-recursive function of the package that findMaximumAntichainSize hands a []bool (method or
+	// plain function, whatever it is called)
+	var aug *ssa.Function
+	for _, cs := range callsIn(fn) {
+		g := cs.common.StaticCallee()
+		if g == nil || len(g.Blocks) == 0 || g.Pkg != fn.Pkg {
+			continue
+		}
+		takes := false
+		for _, a := range cs.common.Args {
+			if a.Type().String() == "[]bool" {
+				takes = true
+			}
+		}
+		for _, cs2 := range callsIn(g) {
+			if takes && cs2.common.StaticCallee() == g {
+				aug = g
+			}
+		}
+	}
+	if aug == nil {
+		// the matching kept in a struct: the visited set is a []bool field of the search's receiver, written by the method
+		// that starts a search (m.used = make(...); return m.search(u)) and that method is what the loop over the roots calls
+		for _, cs := range callsIn(fn) {
+			m := cs.common.StaticCallee()
+			if m == nil || len(m.Blocks) == 0 || m.Pkg != fn.Pkg || innermost(cs.instr.Block()) == nil {
+				continue
+			}
+			for _, st := range func() []*ssa.Store {
+				var out []*ssa.Store
+				for _, b := range m.Blocks {
+					for _, in := range b.Instrs {
+						if st, ok := in.(*ssa.Store); ok {
+							if fa, isF := st.Addr.(*ssa.FieldAddr); isF && st.Val.Type().String() == "[]bool" && len(m.Params) > 0 && fa.X == ssa.Value(m.Params[0]) {
+								out = append(out, st)
+							}
+						}
+					}
+				}
+				return out
+			}() {
+				_, fresh := resolve(st.Val).(*ssa.MakeSlice)
+				for _, cs2 := range callsIn(m) {
+					r := cs2.common.StaticCallee()
+					if r == nil || r.Pkg != fn.Pkg || !instrDominates(st, cs2.instr) {
+						continue
+					}
+					for _, cs3 := range callsIn(r) {
+						if cs3.common.StaticCallee() == r && fresh {
+							c.ok(rule, "every augmenting-path search starts with an empty visited set", fnName(m)+" makes the set, then starts "+r.Name()+"; called per root")
+							c.seen(fnName(m))
+							return
+						}
+					}
+				}
+			}
+		}
+		c.undecided(rule, "findAugmentingPath", "no self-recursive search taking a visited set is called from findMaximumAntichainSize")
+		return
 	}
 	n := 0
 	for _, f := range family(L, fn) {
@@ -5551,4 +5625,108 @@ func ruleContextInjectedOnEveryPath(c *Ctx, rule string) {
 
 func calleeIsFn(call *ssa.Call, f *ssa.Function) bool {
 	return f != nil && call.Common().StaticCallee() != nil && originOf(call.Common().StaticCallee()) == f
+}
+
+// ruleConverterHomeIsWirePackage (C14): the type converter prints types relative to ONE package - names of that package are
+// written bare, everything else is qualified and imported. That package must be the one the wire files are in. With
+// patterns like ./... several packages are loaded and the wire package need not be the first; a converter created for
+// pkgs[0] then qualifies the wire package's own types and makes the output import its own package (it does not compile).
+// Rule: the package handed to NewTypeConverter is selected under a test of FindWireImport (in MigrateFiles or in a helper
+// that returns it), never a fixed element of the loaded list.
+func ruleConverterHomeIsWirePackage(c *Ctx, rule string) {
+	L := c.L
+	mf := resolveRole(c, migPkg, "(*Migrator).MigrateFiles")
+	ntc := resolveRole(c, migPkg, "NewTypeConverter")
+	fwi := resolveRole(c, migPkg, "(*Parser).FindWireImport")
+	if mf == nil || ntc == nil || fwi == nil {
+		c.undecided(rule, "NewTypeConverter", "MigrateFiles / NewTypeConverter / FindWireImport not found")
+		return
+	}
+	fromWireTest := func(cond ssa.Value) bool {
+		seen := map[ssa.Value]bool{}
+		var walk func(v ssa.Value, d int) bool
+		walk = func(v ssa.Value, d int) bool {
+			if v == nil || seen[v] || d > 6 {
+				return false
+			}
+			seen[v] = true
+			switch x := v.(type) {
+			case *ssa.Call:
+				if calleeIsFn(x, fwi) {
+					return true
+				}
+			case *ssa.BinOp:
+				return walk(x.X, d+1) || walk(x.Y, d+1)
+			case *ssa.UnOp:
+				return walk(x.X, d+1)
+			case *ssa.Phi:
+				for _, e := range x.Edges {
+					if walk(e, d+1) {
+						return true
+					}
+				}
+			}
+			return false
+		}
+		return walk(cond, 0)
+	}
+	underWireTest := func(in ssa.Instruction) bool {
+		for _, iff := range controllingIfs(in) {
+			if fromWireTest(iff.Cond) {
+				return true
+			}
+		}
+		return false
+	}
+	n := 0
+	for _, f := range family(L, mf) {
+		for _, cs := range callsIn(f) {
+			if !calleeIsFn2(cs, ntc) || len(cs.common.Args) == 0 {
+				continue
+			}
+			n++
+			// the *packages.Package whose Types are handed over
+			var home ssa.Value
+			if u, ok := resolve(cs.common.Args[0]).(*ssa.UnOp); ok && u.Op == token.MUL {
+				if fa, isF := u.X.(*ssa.FieldAddr); isF && fieldKey(fa) == "golang.org/x/tools/go/packages.Package.Types" {
+					home = resolve(fa.X)
+				}
+			}
+			ok, why := false, "the converter's package is "+describe(resolve(cs.common.Args[0]))
+			switch h := home.(type) {
+			case *ssa.Call:
+				if g := h.Common().StaticCallee(); g != nil && len(g.Blocks) > 0 && g.Pkg == mf.Pkg {
+					for _, r := range returnsOf(g) {
+						if len(r.Results) > 0 && !isNilConst(r.Results[0]) && underWireTest(r) {
+							ok, why = true, "chosen by "+g.Name()+" under a FindWireImport test"
+						}
+					}
+					if !ok {
+						why = g.Name() + " returns a package without consulting FindWireImport"
+					}
+				}
+			case *ssa.UnOp:
+				// an element of the loaded list: fixed index, or the loop variable of a search
+				if ia, isIA := h.X.(*ssa.IndexAddr); isIA {
+					if _, isC := constInt(ia.Index); isC {
+						why = "a fixed element of the loaded packages (" + describe(h) + ")"
+					} else if underWireTest(cs.instr) {
+						ok, why = true, "selected in a loop under a FindWireImport test"
+					}
+				}
+			case *ssa.Phi:
+				if underWireTest(cs.instr) {
+					ok, why = true, "selected under a FindWireImport test"
+				}
+			}
+			c.check(ok, rule, fnName(mf)+":converter-home-is-the-wire-package", L.pos(cs.instr.Pos()),
+				"the type converter is created for the package that holds the wire configuration", why)
+		}
+	}
+	c.floor(rule, "NewTypeConverter calls in the migration pipeline", n, 1)
+}
+
+func calleeIsFn2(cs callSite, f *ssa.Function) bool {
+	cal := cs.common.StaticCallee()
+	return cal != nil && f != nil && originOf(cal) == f
 }
